@@ -632,6 +632,10 @@ def _called_lambda(cx: Ctx, env, ty, depth):
             other = gen(cx, env, tys[-1], 0)
             dflt = cx.pick([f"({dflt}, {other})[k0]", f"[{other}, {dflt}][k0 - 1]"] + (["k0", "(k0 + 1)"] if tys[-1] == I else []))
         params = names[:-1] + [f"{names[-1]}={dflt}"]
+        if n >= 2 and cx.chance(3):
+            # some of the leading parameters are positional-only (declared before `/`); the defaults belong to the LAST parameters
+            # of positional-only + ordinary ones together
+            params.insert(cx.int_(1, n - 1), "/")
         return f"(lambda {', '.join(params)}: {body})({', '.join(args[:-1])})"
     if cx.cfg.keywords_in_called and cx.cfg.kwonly_in_called and cx.chance(2):
         # keyword-only parameters (the last one possibly defaulted and omitted by the call)
@@ -670,6 +674,11 @@ def _odd(cx: Ctx, env, ty, depth):
             return f"{target}{suffix(env)}"
         v = cx.fresh(env)
         e2 = bind(env, v, tty)
+        if k == 8 and cx.cfg.keywords_in_called and tty[0] in ("T", "L"):
+            # the literal arrives through a positional-only parameter, the (in range) index through the default value of the
+            # next one: defaults belong to the last of positional-only + ordinary parameters together
+            i_ = cx.fresh(e2)
+            return f"(lambda {v}, /, {i_}={cx.int_(0, n - 1)}: {v}[{i_}])({target})"
         if k <= 8:
             return f"(lambda {v}: {v}{suffix(e2)})({target})"
         src, st_ = _source(cx, env)
